@@ -23,29 +23,51 @@
 (***************************************************************************)
 EXTENDS Integers, Sequences, FiniteSets, TLC
 
-CONSTANTS D7Stutter,     \* TRUE: a stranded call (known finding D7) is not reported as a deadlock
-          Callers,       \* caller threads
-          Mode,          \* "idle" | "lit" | "closed" : how T is used
-          ReCheck        \* TRUE: the locked re-check in _get_loop_lock (the code); FALSE: dropped (witness)
+\* (the @type comments are for Apalache - see Apa_CrossLoop.tla; TLC ignores them)
+CONSTANTS
+    \* @type: Bool;
+    D7Stutter,     \* TRUE: a stranded call (known finding D7) is not reported as a deadlock
+    \* @type: Set(Str);
+    Callers,       \* caller threads
+    \* @type: Str;
+    Mode,          \* "idle" | "lit" | "closed" : how T is used
+    \* @type: Bool;
+    ReCheck        \* TRUE: the locked re-check in _get_loop_lock (the code); FALSE: dropped (witness)
 
-VARIABLES pc,        \* caller -> control point
-          running,   \* who runs T: "none", a caller's pool thread (the caller id), or "LIT"
-          closed,
-          pending,   \* coroutines submitted to T thread-safely and not yet executed
-          lockOf,    \* which Lock object the table holds for T: 0 = none, else its id
-          nlocks,
-          myLock,    \* pool thread of caller -> lock object it obtained
-          holder,    \* lock object id -> holder ("none" or thread)
-          createLock,\* holder of _LOOP_LOCKS_CREATE_LOCK
-          lit,       \* loop_in_thread driver: "new" | "submitted" | "spinning" | "returned" | "stopping" | "stopped"
-          litpc,     \* the LIT pool thread's control point
-          stopReq,
-          evaluated, \* callers whose awaitable was evaluated (on T)
-          error      \* callers that got an exception not raised by their awaitable
+VARIABLES
+    \* @type: Str -> Str;
+    pc,        \* caller -> control point
+    \* @type: Str;
+    running,   \* who runs T: "none", a caller's pool thread (the caller id), or "LIT"
+    \* @type: Bool;
+    closed,
+    \* @type: Set(Str);
+    pending,   \* coroutines submitted to T thread-safely and not yet executed
+    \* @type: Int;
+    lockOf,    \* which Lock object the table holds for T: 0 = none, else its id
+    \* @type: Int;
+    nlocks,
+    \* @type: Str -> Int;
+    myLock,    \* pool thread of caller -> lock object it obtained
+    \* @type: Int -> Str;
+    holder,    \* lock object id -> holder ("none" or thread)
+    \* @type: Str;
+    createLock,\* holder of _LOOP_LOCKS_CREATE_LOCK
+    \* @type: Str;
+    lit,       \* loop_in_thread driver: "off" | "new" | "spinning" | "returned" | "stopping" | "stopped"
+    \* @type: Str;
+    litpc,     \* the LIT pool thread's control point
+    \* @type: Bool;
+    stopReq,
+    \* @type: Set(Str);
+    evaluated, \* callers whose awaitable was evaluated (on T)
+    \* @type: Set(Str);
+    error      \* callers that got an exception not raised by their awaitable
 
 vars == <<pc, running, closed, pending, lockOf, nlocks, myLock, holder, createLock, lit, litpc, stopReq, evaluated, error>>
 
 None == "none"
+LockIds == 1..6         \* lock object ids (enough for 4 callers + loop_in_thread even without the re-check)
 Threads == Callers \cup {"LIT"}
 
 Init ==
@@ -55,7 +77,7 @@ Init ==
     /\ pending = {}
     /\ lockOf = 0 /\ nlocks = 0
     /\ myLock = [t \in Threads |-> 0]
-    /\ holder = [i \in 1..(Cardinality(Callers) + 2) |-> None]
+    /\ holder = [i \in LockIds |-> None]
     /\ createLock = None
     /\ lit = IF Mode = "lit" THEN "new" ELSE "off"
     /\ litpc = "idle"
